@@ -79,7 +79,9 @@ func (r Req) build() *http.Request {
 		hr.Extensions = fmt.Sprintf(`{"persistedQuery":{"version":1,"sha256Hash":%q}}`, hashOf(texts[r.Text]))
 		hr.HasQuery, hr.Query = false, ""
 	case "APQWRONG":
-		hr.Extensions = fmt.Sprintf(`{"persistedQuery":{"version":1,"sha256Hash":%q}}`, hashOf("other"))
+		// the hash of another text of the pool: a later hash-only request for that text must not
+		// find this one (a rejected request leaves no memory)
+		hr.Extensions = fmt.Sprintf(`{"persistedQuery":{"version":1,"sha256Hash":%q}}`, hashOf(texts[(r.Text+1)%len(texts)]))
 	default:
 		hr.Extensions = extensionsPool[r.Ext]
 	}
